@@ -389,11 +389,20 @@ LIVE = ['Live_C10_ObjectsRepaired', 'Live_C10_Quiescent', 'Live_C10_TeardownComp
 def live_mc(tier):
     """liveness of the design model spec/PKO.tla under fairness (FixedSpec: fixed desired state; third-party edits, workload changes and
     restarts bounded by the budgets; no state constraint): every active set ends up repaired, the system falls silent, teardown completes"""
+    # the same properties with the controller driven by its work queue (spec/PKOTriggered.tla): a pass starts only for an enqueued set
+    trig = dict(invariants=['TypeOK', 'TTypeOK'], spec='TSpec', props=LIVE + ['Live_C10_QueueDrains'], constraint=False, extends='PKOTriggered')
+    negctl = dict(name='live-trig-negctl-noretry', instance='single3', budgets=(2, 0, 0), invariants=['TypeOK'], spec='TSpec', constraint=False,
+                  extends='PKOTriggered', props=['Live_C10_ObjectsRepaired'], overrides=['RetryOnRefusal <- MCFalse'],
+                  expect_violation='Live_C10_ObjectsRepaired')
     if tier == 'quick':
         return [dict(name='live-single3-b211', instance='single3', budgets=(2, 1, 1), invariants=['TypeOK'], spec='FixedSpec', props=LIVE, constraint=False),
-                dict(name='live-handoverfixed-b111', instance='handoverfixed', budgets=(1, 1, 1), invariants=['TypeOK'], spec='FixedSpec', props=LIVE, constraint=False)]
+                dict(name='live-handoverfixed-b111', instance='handoverfixed', budgets=(1, 1, 1), invariants=['TypeOK'], spec='FixedSpec', props=LIVE, constraint=False),
+                dict(trig, name='live-trig-single3-b211', instance='single3', budgets=(2, 1, 1)),
+                dict(trig, name='live-trig-handoverfixed-b111', instance='handoverfixed', budgets=(1, 1, 1)), negctl]
     return [dict(name='live-single3-b321', instance='single3', budgets=(3, 2, 1), invariants=['TypeOK'], spec='FixedSpec', props=LIVE, constraint=False, timeout=3000),
-            dict(name='live-handoverfixed-b211', instance='handoverfixed', budgets=(2, 1, 1), invariants=['TypeOK'], spec='FixedSpec', props=LIVE, constraint=False, timeout=3000)]
+            dict(name='live-handoverfixed-b211', instance='handoverfixed', budgets=(2, 1, 1), invariants=['TypeOK'], spec='FixedSpec', props=LIVE, constraint=False, timeout=3000),
+            dict(trig, name='live-trig-single3-b321', instance='single3', budgets=(3, 2, 1), timeout=3000),
+            dict(trig, name='live-trig-handoverfixed-b211', instance='handoverfixed', budgets=(2, 1, 1), timeout=3000), negctl]
 
 
 MCINV = {
